@@ -289,6 +289,12 @@ def check(ctx):
     nq = _core.adopt(ctx, c12, lambda o: o["rule"] == "C12.b", "C02.c")
     ctx.floor("C02.c", nq, 8, "shared queue-operation obligations (C12.b)")
 
+    # the counter and the postponed queue are touched by the runner only (shared with C11): a reset or a push elsewhere
+    # changes which commands are postponed, discarded or treated as root
+    import c11
+    nw = _core.adopt(ctx, c11, lambda o: o["rule"] in ("C11.counter", "C11.queue") and "only-by-runner" in o["key"], "C02.c")
+    ctx.floor("C02.c", nw, 2, "shared who-writes obligations (C11)")
+
     # --- C02.d each command runs in-line exactly once; who-may-call ---
     applies = [b for b in A.command_apply_impls(prog) if b.file.endswith("react/commands.rs") or "react::" in b.path]
     applies = [b for b in applies if b.calls_named(lambda n: n == R.path) or "react::commands" in b.path]
